@@ -406,6 +406,20 @@ func exact(t *rapid.T, label string) float32 {
 
 func genCall(t *rapid.T, drawing bool) Call {
 	op := func(o ops.Op) Call { return Call{What: "op", Op: &o} }
+	drawCall := func(k ops.Kind) Call {
+		if k == ops.AbsArcTo || k == ops.RelArcTo {
+			return op(ops.OpArc(k, exact(t, "rx"), exact(t, "ry"), float32(rapid.IntRange(0, 7).Draw(t, "rot"))/8, rapid.Bool().Draw(t, "la"), rapid.Bool().Draw(t, "sw"), exact(t, "x"), exact(t, "y")))
+		}
+		args := make([]float32, k.NArgs())
+		for i := range args {
+			args[i] = exact(t, "a")
+		}
+		return op(ops.OpDraw(k, args...))
+	}
+	if drawing && runLeft > 0 && prevVerb != 0 {
+		runLeft-- // inside a long uninterrupted run of one verb (beyond one opcode's repeat count)
+		return drawCall(prevVerb)
+	}
 	// mostly protocol-respecting, so that long accepted histories occur
 	r := rapid.IntRange(0, 99).Draw(t, "pick")
 	switch {
@@ -447,16 +461,11 @@ func genCall(t *rapid.T, drawing bool) Call {
 		k := rapid.SampledFrom(gen.DrawVerbs).Draw(t, "verb")
 		if prevVerb != 0 && rapid.IntRange(0, 2).Draw(t, "again") == 0 {
 			k = prevVerb // the same verb again: one run in the encoding
+		} else if rapid.IntRange(0, 11).Draw(t, "longrun") == 0 {
+			runLeft = rapid.IntRange(15, 40).Draw(t, "runlen")
 		}
 		prevVerb = k
-		if k == ops.AbsArcTo || k == ops.RelArcTo {
-			return op(ops.OpArc(k, exact(t, "rx"), exact(t, "ry"), float32(rapid.IntRange(0, 7).Draw(t, "rot"))/8, rapid.Bool().Draw(t, "la"), rapid.Bool().Draw(t, "sw"), exact(t, "x"), exact(t, "y")))
-		}
-		args := make([]float32, k.NArgs())
-		for i := range args {
-			args[i] = exact(t, "a")
-		}
-		return op(ops.OpDraw(k, args...))
+		return drawCall(k)
 	}
 	switch rapid.IntRange(0, 5).Draw(t, "styling") {
 	case 0:
@@ -487,12 +496,15 @@ func genCall(t *rapid.T, drawing bool) Call {
 // prevVerb: the drawing verb genCall drew last in the current case.
 var prevVerb ops.Kind
 
+// runLeft: how many more calls of prevVerb genCall makes before choosing again.
+var runLeft int
+
 func TestRandomHistories(t *testing.T) {
 	harness.Rapid(t, harness.N(6000, 16*80000), func(t *rapid.T) {
 		n := rapid.IntRange(1, 300).Draw(t, "len")
 		var c Case
 		a := newAutomaton()
-		prevVerb = 0
+		prevVerb, runLeft = 0, 0
 		for i := 0; i < n; i++ {
 			call := genCall(t, a.st == stDrawing && a.err == vNone)
 			a.step(i, call)
